@@ -702,7 +702,7 @@ struct Value {
     }
     static Value prepare_extraction(const Value& a, const Value& b);
 private:
-    bool extract_values(std::vector<std::vector<uint8_t>>& values);
+    bool extract_values(std::vector<std::vector<uint8_t>>& values, bool small_numbers = false);
 };
 
 const std::vector<std::byte>& VecU8ToByte(const std::vector<uint8_t>& u8v);
